@@ -655,7 +655,7 @@ def run_program(host, entries, mode, trace, sched=None, before=None, after=None,
     if mode == 'sys':
         for n, spec in zip(names, entries):
             fn, arg = host.entry(spec)
-            for _ in range(64):
+            for _ in range(20000):
                 out['go'][n].put(1)             # sync points never block in this mode
 
             class _Handler:                    # rig.run_traced wants an object with .trace_call
